@@ -3,6 +3,7 @@
 from __future__ import annotations
 
 import sys
+from decimal import Decimal
 from typing import TYPE_CHECKING
 from typing import Any
 from typing import Generic
@@ -218,6 +219,15 @@ class FloatLiteral(Literal[float]):
 
     def __eq__(self, other: object) -> bool:
         return isinstance(other, FloatLiteral) and self.value == other.value
+
+    def __str__(self) -> str:
+        text = repr(self.value)
+        if "e" in text:
+            # Liquid has no exponent notation for float literals.
+            text = format(Decimal(text), "f")
+            if "." not in text:
+                text += ".0"
+        return text
 
 
 class RangeLiteral(Expression):
